@@ -272,6 +272,18 @@ def make_program(rnd, features, threads=False):
             names.append(nm)
             kinds[nm] = g.kinds[i]
             twin_of[nm] = 'f%d' % i
+    # thin delegating wrappers: three or four functions whose bytecode is byte-identical (only co_names differ), each
+    # calling the next - several duplicates of ONE bytecode registered together and active at the same time
+    delegs = []
+    if 'delegators' in features:
+        nd = rnd.randrange(3, 5)
+        adv = rnd.choice([1, 3, 10, 50])
+        for j in range(nd):
+            nxt = 'w%d' % (j + 1) if j + 1 < nd else 'f0'
+            lines += ['def w%d(x, d):' % j, '    A(%d)' % adv, '    return %s(x + 1, d)' % nxt, '']
+            names.append('w%d' % j)
+            kinds['w%d' % j] = 'fn'
+            delegs.append('w%d' % j)
     main_file = 'main.py'
     # ... or in another file at the very same line numbers
     if 'twinfile' in features:
@@ -340,6 +352,7 @@ def make_program(rnd, features, threads=False):
 
     nreg = rnd.randrange(1, len(names) + 1)
     regnames = rnd.sample(names, nreg)
+    regnames += [x for x in delegs if x not in regnames]
     if 'addmod' in features:
         # register through add_module: the functions of each file as one module object
         main_names = [x for x in regnames if not x.startswith('u')]
@@ -383,6 +396,8 @@ def make_program(rnd, features, threads=False):
     for ph in range(phases):
         style = rnd.randrange(3)
         body = []
+        if delegs and ph == 0:
+            body += call_stmt(delegs[0], '        ' if style == 0 else '    ')
         for _ in range(rnd.randrange(1, 4)):
             body += call_stmt(rnd.choice(names), '        ' if style == 0 else '    ')
             if rnd.random() < 0.3:
